@@ -78,6 +78,8 @@ pub const CORPUS: &[&str] = &[
 
 /// frames of one simulated aircraft: every kind the table reads
 fn frames_for(rng: &mut Rng, ai: usize, icao: u32) -> Vec<Vec<u8>> {
+    // (the per-aircraft values below were written for a handful of aircraft)
+    let ai = ai % 9;
     let cs = format!("AC{}X{:03}", ai, rng.below(1000));
     let alt = 5000 + 4000 * ai as i32 + 25 * rng.irange(0, 100) as i32;
     let sq = [(ai as u8 + 1) & 7, rng.below(8) as u8, rng.below(8) as u8, ai as u8 & 7];
@@ -158,12 +160,17 @@ impl Scenario for C12 {
         }
     }
     fn generate(&self, rng: &mut Rng, tier: Tier, _idx: u64) -> C12Plan {
-        let n_ac = rng.usize(1, 6);
+        // 1 run in 100 is a crowd: more aircraft than any bounded structure a
+        // change might introduce (a cache, a fixed-size table, an 8-bit index)
+        let crowd = rng.chance(0.01);
+        let n_ac = if crowd { rng.usize(30, 300) } else { rng.usize(1, 6) };
         let mut icaos: Vec<u32> = Vec::new();
         while icaos.len() < n_ac {
-            let i = match rng.below(4) {
+            let i = match rng.below(if crowd { 40 } else { 8 }) {
                 // neighbours in address space (one bit apart)
-                0 if !icaos.is_empty() => icaos[0] ^ (1 << rng.below(24)),
+                0 | 1 if !icaos.is_empty() => icaos[0] ^ (1 << rng.below(24)),
+                // addresses at the edges of the 24-bit space and with leading zeros
+                2 => *rng.pick(&[0x000001u32, 0xFFFFFF, 0xFFFFFE, 0x800000, 0x7FFFFF, 0x000100, 0x0A0000, 0x100000, 0x0FFFFF, 0x00000A]),
                 _ => rng.range(1, 0xFF_FFFE) as u32,
             };
             if !icaos.contains(&i) && i != 0 {
@@ -181,13 +188,14 @@ impl Scenario for C12 {
                 }
             }
         };
-        let n = rng.usize(1, max);
+        let n = if crowd { rng.usize(n_ac, 2 * n_ac + 50) } else { rng.usize(1, max) };
         let mut records = Vec::new();
         let mut t_ms: u64 = 50_000;
         let mut at: u64 = 0;
         let burst = rng.chance(0.5);
-        for _ in 0..n {
-            let ai = rng.usize(0, n_ac - 1);
+        for k in 0..n {
+            // (in a crowd every aircraft is heard at least once)
+            let ai = if crowd && k < n_ac { k } else { rng.usize(0, n_ac - 1) };
             let mut f = rng.pick(&pools[ai]).clone();
             if rng.chance(0.04) {
                 // formats without an address in the JSON
